@@ -22,3 +22,21 @@ func RunC03(tier string) int {
 	run.Assume("a command's E line is written before it exits, which happens-before its dependants are released, which happens-before their S line: O_APPEND order is a linearization")
 	return run.Finish()
 }
+
+// RunC05: failures are contained (keep-going / fail-fast) and never cached.
+func RunC05(tier string) int {
+	run := report.New("C05", tier, "exploration",
+		"(a) the real binary: seeded random graphs x random failing subsets x failure kinds (non-zero exit, timeout, missing declared output, failing output check) x keep-going/fail-fast x num_workers; every history = failing build, identical follow-up build (failed targets must be attempted again), then a build after the failure causes are removed; "+
+			"(b) dag.Walker in synctest bubbles under the race detector with failing callbacks: a node with a failed transitive dependency must never start; "+
+			"non-trivial = at least one target failed, one dependant was skipped and one unaffected target was built (a), walker case with failures (b); distinct = shape + failing set + kinds + mode")
+	st, err := e1.Prepare(run, false)
+	if err != nil {
+		run.Infra(err.Error())
+		return run.Finish()
+	}
+	defer st.Cleanup()
+	e1.C05Part(run, st, tier)
+	walkerPart(run, tier, "C05")
+	run.Assume("exec.CommandContext refuses to start a command once its context is cancelled, so a command that started after the walk.failfast event is a violation, while one attempted before it may still run")
+	return run.Finish()
+}
